@@ -187,6 +187,13 @@ def is_func_value(v):
     return isinstance(v, tuple) and len(v) in (2, 3) and v[0] == "func" and isinstance(v[1], FUNC_TYPES + (ast.Lambda,))
 
 
+def _plain_type_expr(e):
+    """An except clause that names its classes directly: Name / dotted name / tuple of those."""
+    if isinstance(e, ast.Tuple):
+        return all(_plain_type_expr(x) for x in e.elts)
+    return isinstance(e, (ast.Name, ast.Attribute))
+
+
 def lexical_parent(func):
     """The function (or lambda) whose body defines ``func``, or None for methods / module-level functions."""
     n = getattr(func, "_parent", None)
@@ -440,7 +447,18 @@ class Interp:
                     out.append(r)
                 else:
                     if any(isinstance(x, ast.Starred) for x in e.elts):
-                        v = TOP
+                        # [*a, b]: exact when every starred part is an exact sequence
+                        items = []
+                        for x, xv in zip(e.elts, r.value):
+                            if isinstance(x, ast.Starred):
+                                els = self._exact_elements(xv) if getattr(d, "exact_lists", False) else None
+                                if els is None:
+                                    items = None
+                                    break
+                                items.extend(els)
+                            else:
+                                items.append(xv)
+                        v = ("tuple",) + tuple(items) if items is not None and not isinstance(e, ast.Set) else TOP
                     elif (isinstance(e, ast.Tuple) and e.elts) or (isinstance(e, ast.List) and getattr(d, "exact_lists", False)) \
                             or (isinstance(e, ast.Set) and getattr(d, "exact_lists", False) and all(isinstance(x, ast.Constant) for x in e.elts)):
                         # (a set of constants is iterated in source order: one of its possible orders)
@@ -565,6 +583,18 @@ class Interp:
         if not getattr(self.domain, "track_lists", False):
             return None
         f = call.func
+        if isinstance(f, ast.Attribute) and f.attr in ("reverse", "clear") and not call.args and not call.keywords:
+            key = self._key_of(f.value, fr, st)
+            cur = st.get(key, None) if key is not None else None
+            if isinstance(cur, tuple) and cur[:1] == ("tuple",):
+                return [val(NONE, st.set(key, ("tuple",) + (tuple(reversed(cur[1:])) if f.attr == "reverse" else ())))]
+            return None
+        if isinstance(f, ast.Attribute) and f.attr == "insert" and len(call.args) == 2 and not call.keywords and isinstance(call.args[0], ast.Constant) and call.args[0].value == 0:
+            key = self._key_of(f.value, fr, st)
+            cur = st.get(key, None) if key is not None else None
+            if isinstance(cur, tuple) and cur[:1] == ("tuple",):
+                return [r if r.kind == "exc" else val(NONE, r.state.set(key, ("tuple", r.value) + tuple(r.state.get(key)[1:]))) for r in self.eval(call.args[1], st, fr)]
+            return None
         if isinstance(f, ast.Attribute) and f.attr == "pop" and len(call.args) <= 1 and not call.keywords:
             # x.pop() / x.pop(0) on an exact list
             key = self._key_of(f.value, fr, st)
@@ -1067,7 +1097,7 @@ class Interp:
             return out
         if isinstance(s, ast.Raise):
             if s.exc is None:
-                cur = st.get(fr.local("<handling>"), "exc")
+                cur = st.get("<handling>", "exc")
                 return [("raise", cur, st)]
             out = []
             for r in self.eval(s.exc, st, fr):
@@ -1307,13 +1337,20 @@ class Interp:
             if kind == "raise" and s.handlers:
                 remaining = True
                 for h in s.handlers:
-                    m = d.match(h.type, payload, s2)
+                    dyn = getattr(d, "match_dynamic", None)
+                    m = dyn(self, h.type, payload, s2, fr) if dyn is not None and h.type is not None and not _plain_type_expr(h.type) else None
+                    if m is None:
+                        m = d.match(h.type, payload, s2)
                     if m == "no":
                         continue
-                    s3 = s2.set(fr.local("<handling>"), payload)
+                    hkey = "<handling>"
+                    outer = s2.get(hkey, None) if s2.has(hkey) else None
+                    s3 = s2.set(hkey, payload)
                     if h.name:
                         s3 = s3.set(fr.local(h.name), payload)
                     for k2, p2, s4 in self.exec_block(h.body, [s3], fr):
+                        # leaving the handler: the exception being handled is the outer one again (or none)
+                        s4 = s4.set(hkey, outer) if outer is not None else State(frozenset((k_, v_) for k_, v_ in s4.items if k_ != hkey), s4.log)
                         results.append((k2, p2, s4))
                     if m == "yes":
                         remaining = False
@@ -1336,46 +1373,131 @@ class Interp:
         return self._dd(out)
 
     def _contextmanager_rewrite(self, s, st, fr):
-        """`with self.helper(): BODY` where helper is a generator-based context manager of this class that takes no
-        argument and has a single yield: execute  PRE; try: BODY finally: POST  (or PRE; BODY; POST when the yield
-        is unprotected) in place -- the helper only refers to self, so the caller's frame can run its statements."""
+        """`with helper(args) [as x]: BODY` where helper is a generator-based context manager defined in this module (a method
+        of self, a module-level or nested function) with a single `yield` statement and no `return`: its body is executed
+        in place with the `yield` replaced by BODY -- PRE; try: BODY finally: POST, whatever nesting the yield sits in.
+        The helper's parameters and locals are renamed apart and its parameters bound to the argument expressions."""
+        import copy
         classes = getattr(self.domain, "classes", None)
         if len(s.items) != 1 or classes is None or not isinstance(s.items[0].context_expr, ast.Call):
             return None
         call = s.items[0].context_expr
-        if call.args or call.keywords:
+        if any(isinstance(a, ast.Starred) for a in call.args) or any(k.arg is None for k in call.keywords):
             return None
         hit = self.resolve_callee(call, st, fr, classes)
         if hit is None:
             return None
         f, _, bind_self = hit
-        if not bind_self or len(f.args.args) != 1 or f.args.args[0].arg != fr.selfname:
+        if not isinstance(f, FUNC_TYPES) or not any((dotted(dd) or "").split(".")[-1] == "contextmanager" for dd in f.decorator_list):
             return None
-        if not any((dotted(dd) or "").split(".")[-1] == "contextmanager" for dd in f.decorator_list):
+        if getattr(f, "_module", None) is not getattr(fr.func, "_module", None) or f.args.vararg or f.args.kwarg or f.args.posonlyargs:
             return None
-        yields = [n for n in ast.walk(f) if isinstance(n, (ast.Yield, ast.YieldFrom))]
-        if len(yields) != 1 or isinstance(yields[0], ast.YieldFrom):
+        own_stmts = []
+        stack = list(f.body)
+        while stack:
+            n = stack.pop()
+            if isinstance(n, FUNC_TYPES + (ast.Lambda, ast.ClassDef)):
+                continue
+            own_stmts.append(n)
+            stack.extend(ast.iter_child_nodes(n))
+        yields = [n for n in own_stmts if isinstance(n, (ast.Yield, ast.YieldFrom))]
+        if len(yields) != 1 or isinstance(yields[0], ast.YieldFrom) or any(isinstance(n, ast.Return) for n in own_stmts):
             return None
-        body = [x for x in f.body if not (isinstance(x, ast.Expr) and isinstance(x.value, ast.Constant))]
-        bound = ([ast.Assign(targets=[s.items[0].optional_vars], value=yields[0].value or ast.Constant(value=None))] if s.items[0].optional_vars is not None else [])
-
-        def is_yield_stmt(x):
-            return isinstance(x, ast.Expr) and x.value is yields[0]
-
-        for i, x in enumerate(body):
-            if is_yield_stmt(x):
-                new = body[:i] + bound + list(s.body) + body[i + 1:]
-                break
-            if isinstance(x, ast.Try) and len(x.body) == 1 and is_yield_stmt(x.body[0]) and not x.handlers and not x.orelse:
-                t = ast.Try(body=bound + list(s.body), handlers=[], orelse=[], finalbody=x.finalbody)
-                new = body[:i] + [t] + body[i + 1:]
-                break
+        ystmt = getattr(yields[0], "_parent", None)
+        if not (isinstance(ystmt, ast.Expr) and ystmt.value is yields[0]):
+            return None
+        params = [p.arg for p in f.args.args]
+        if bind_self:
+            if not params or not fr.selfname:
+                return None
+            self_param, params = params[0], params[1:]
         else:
+            self_param = None
+        if len(call.args) > len(params):
             return None
+        # rename the helper's own names apart (its self stays the caller's self)
+        tag = f"__cm{s.lineno}_{getattr(f, 'name', 'f')}_"
+        own = set(own_names(f))
+        ren = {n_: tag + n_ for n_ in own if n_ != self_param}
+        if self_param is not None:
+            ren[self_param] = fr.selfname
+
+        class _Ren(ast.NodeTransformer):
+            def visit_Name(self, node):
+                if node.id in ren:
+                    return ast.copy_location(ast.Name(id=ren[node.id], ctx=node.ctx), node)
+                return node
+
+            def visit_arg(self, node):
+                return node
+
+        marker = "__ttsa_cm_yield__"
+        body_src = [x for x in f.body if not (isinstance(x, ast.Expr) and isinstance(x.value, ast.Constant) and isinstance(x.value.value, str))]
+        holder = ast.Module(body=copy.deepcopy(body_src), type_ignores=[])
+        # mark the yield statement in the copy (same position in a parallel walk)
+        orig_nodes = [n for x in body_src for n in ast.walk(x)]
+        copy_nodes = [n for x in holder.body for n in ast.walk(x)]
+        if len(orig_nodes) != len(copy_nodes):
+            return None
+        ycopy = copy_nodes[orig_nodes.index(ystmt)]
+        holder = _Ren().visit(holder)
+        yval = ycopy.value.value if isinstance(ycopy.value, ast.Yield) else None
+        bound = [ast.Assign(targets=[s.items[0].optional_vars], value=yval or ast.Constant(value=None))] if s.items[0].optional_vars is not None else []
+        replacement = bound + list(s.body)
+
+        def splice(stmts):
+            out = []
+            for x in stmts:
+                if x is ycopy:
+                    out.extend(replacement)
+                    continue
+                for field in ("body", "orelse", "finalbody"):
+                    sub = getattr(x, field, None)
+                    if isinstance(sub, list):
+                        setattr(x, field, splice(sub))
+                if isinstance(x, ast.Try):
+                    for h in x.handlers:
+                        h.body = splice(h.body)
+                out.append(x)
+            return out
+
+        spliced = splice(holder.body)
+        # bind the parameters to the argument expressions (evaluated in the caller's scope), then defaults
+        prologue = []
+        given = {}
+        for p_, a_ in zip(params, call.args):
+            given[p_] = a_
+        for k in call.keywords:
+            if k.arg not in params or k.arg in given:
+                return None
+            given[k.arg] = k.value
+        defaults = dict(zip([p.arg for p in f.args.args][len(f.args.args) - len(f.args.defaults):], f.args.defaults))
+        for p_ in params:
+            src = given.get(p_, defaults.get(p_))
+            if src is None:
+                return None
+            prologue.append(ast.Assign(targets=[ast.Name(id=ren.get(p_, p_), ctx=ast.Store())], value=src))
+        new = prologue + spliced
         for n in new:
             for sub in ast.walk(n):
                 if not hasattr(sub, "lineno"):
                     sub.lineno, sub.col_offset, sub.end_lineno, sub.end_col_offset = s.lineno, s.col_offset, s.lineno, s.col_offset
+        # the copied statements live, lexically, where the with-statement is
+        from .loader import _annotate   # noqa: F401  (parent pointers for nested scopes / closures)
+        for n in prologue + [x for x in spliced if x not in s.body]:
+            stack = [(n, getattr(s, "_parent", None))]
+            while stack:
+                node, parent = stack.pop()
+                if getattr(node, "_module", None) is not None and node in s.body:
+                    continue
+                node._parent = parent
+                node._module = getattr(s, "_module", None)
+                node._func = getattr(s, "_func", None)
+                node._class = getattr(s, "_class", None)
+                for ch_ in ast.iter_child_nodes(node):
+                    if any(ch_ is b_ for b_ in s.body):
+                        continue
+                    stack.append((ch_, node))
         self.functions.add(f)
         return new
 
